@@ -320,6 +320,31 @@ func (m *C14Mon) Wait(h *Hand, s *pokerface.GameState) {
 }
 
 func (m *C14Mon) End(h *Hand, s *pokerface.GameState) {
+	// cards once dealt never change - also not when the table starts its next hand from the same options
+	// value (the same deck slice, shuffled in place by Start) while this hand's state is still around
+	if h.Opts != nil && h.spare == nil && h.C.Reuse == 0 {
+		dealt := func() string {
+			l := []interface{}{s.Status.Board, s.Status.Burned}
+			for _, p := range s.Players {
+				l = append(l, p.HoleCards)
+				if p.Combination != nil {
+					l = append(l, p.Combination.Cards)
+				}
+			}
+			b, _ := json.Marshal(l)
+			return string(b)
+		}
+		before := dealt()
+		nxt := pokerface.NewGame(h.Opts)
+		if nxt.Start() == nil {
+			nxt.ReadyForAll()
+			h.Rep.Inc("next_hands_started_from_the_same_options")
+			if after := dealt(); after != before {
+				h.Fail("C14/dealt-cards-changed", "after=next-hand-on-same-options", fmt.Sprintf("the finished hand's dealt cards changed when another hand was started from the same options value:\n before=%s\n after =%s", before, after))
+				return
+			}
+		}
+	}
 	switch {
 	case len(s.Status.Board) < 5:
 		h.Rep.Inc("hands_early_end")
